@@ -43,7 +43,7 @@ package types
 // runtime reserves 0 for null and adds 1 to the index of the case class. The case classes are therefore numbered
 // 0, 1, 2, ... over the non-null cases, in declaration order, whether or not the union has a null option.
 //@ func writeUnionClass
-//@   property C03,C14
+//@   property C03,C14,C01
 //@   requires generalizedType != nil
 //@   invariant 0: i == emitted("%s.%s = type(\"%s.%s\", (%s,), {\"index\": %d, \"tag\": \"%s\"})\n")
 //@   iteration 0: non_null_cases_are_numbered_consecutively: (tc.Type != nil ==> emitted("%s.%s = type(\"%s.%s\", (%s,), {\"index\": %d, \"tag\": \"%s\"})\n") == 1 && emittedArg("%s.%s = type(\"%s.%s\", (%s,), {\"index\": %d, \"tag\": \"%s\"})\n", 0, 5, int) == i && emittedArg("%s.%s = type(\"%s.%s\", (%s,), {\"index\": %d, \"tag\": \"%s\"})\n", 0, 6, string) == tc.Tag) && (tc.Type == nil ==> emitted("%s.%s = type(\"%s.%s\", (%s,), {\"index\": %d, \"tag\": \"%s\"})\n") == 0)
